@@ -27,6 +27,7 @@ DESCR = {
     "TB": dict(sym="tb", pfx=[], typ="Temperature"),  # its conversion type is a built-in one
     "BAD": dict(sym="bq", pfx=[], typ="T1", bad=True),  # malformed definition (no magnitude) with a custom type
     "BADP": dict(sym="bp", pfx=[], typ="", bad=True),   # malformed definition
+    "INT": dict(sym="bi", pfx=[], typ="T1", bad=True, interrupt=True),  # registration interrupted (KeyboardInterrupt) after its type was inserted
 }
 LINES = {
     "len": dict(kind="unit", sym="[len]"),
@@ -148,11 +149,21 @@ def observe(base):
             "ctypes": sorted("T1" if t is T1 else getattr(t, "__name__", str(t)) for t in UNIT_TYPES if t not in base["types"]), "prefixes_intact": pfx_ok, "dupkeys": len(keys) != len(set(keys))}
 
 
+class _Interrupting(dict):
+    """A unit definition whose registration is interrupted when the table row is built."""
+    def __getitem__(self, key):
+        if key == "magnitude":
+            raise KeyboardInterrupt()
+        return dict.__getitem__(self, key)
+
+
 def make_units(units, salt):
     d = {}
     for j, u in enumerate(units):
         e = {"magnitude": 2.0 + 0.25 * j + salt, "dimensions": [1, 0, 0, 0, 0, 0, 0, 0]}
-        if u.get("bad"):
+        if u.get("interrupt") or u["sym"] == DESCR["INT"]["sym"]:      # (records from TLC carry only sym/pfx/typ/bad)
+            e = _Interrupting(e)
+        elif u.get("bad"):
             del e["magnitude"]
         if u["pfx"]:
             e["prefixes"] = list(u["pfx"])
@@ -200,12 +211,13 @@ def replay_hist(hist):
             res = "ok"
             if op["op"] == "open":
                 try:
-                    h = UnitEnvironment(make_units(op["arg"], n))
-                    handles.append((h, op["arg"]))
-                except Exception:
+                    defs = make_units(op["arg"], n)
+                    h = UnitEnvironment(defs)
+                    handles.append((h, op["arg"], {k: v.get("magnitude") for k, v in defs.items()}))
+                except BaseException:
                     res = "fail"
             elif op["op"] == "close":
-                h, units = handles.pop()
+                h, units, mags = handles.pop()
                 h.close()
             elif op["op"] == "dip":
                 try:
@@ -232,13 +244,16 @@ def replay_hist(hist):
                                       "expected": {"custom": want_custom, "ntypes": exp["ntypes"], "ctypes": sorted(exp["ctypes"])}, "clause": clause,
                                       "res": res})
             # usable inside the scope / unusable outside
-            for h, units in handles:
+            for h, units, mags in handles:
                 for u in units:
                     try:
-                        Quantity(1, u["sym"])
-                    except Exception:
+                        got = Quantity(1, u["sym"]).value("m")
+                    except Exception as e:
                         return ("violation", {"step": n + 1, "clause": "unit of an open scope is not usable", "sym": u["sym"],
                                               "observed": o, "expected": {}})
+                    if abs(got - mags[u["sym"]]) > 1e-9 * abs(mags[u["sym"]]):
+                        return ("violation", {"step": n + 1, "clause": "unit of an open scope does not have the definition it was registered with",
+                                              "sym": u["sym"], "observed": {"value_in_m": got}, "expected": {"value_in_m": mags[u["sym"]]}})
         return ("ok", None)
     finally:
         restore(base)
@@ -380,14 +395,15 @@ def run(replay=None):
     wd = C.workdir(PID)
     t = C.tier()
     if t == "quick":
-        ul = unit_lists(2, ["X", "Y", "M", "OL", "T", "T2", "TB", "BAD", "BADP"]) + [("X", "Y", "M"), ("X", "T", "OL"), ("T", "Y", "X"), ("X", "T", "BADP")]
+        ul = unit_lists(2, ["X", "Y", "M", "OL", "T", "T2", "TB", "BAD", "BADP"]) + [("X", "Y", "M"), ("X", "T", "OL"), ("T", "Y", "X"), ("X", "T", "BADP"),
+                                                                                           ("INT",), ("X", "INT"), ("T2", "INT"), ("X", "Y", "INT")]
         tx = dip_texts(2, ["len", "c", "use", "bad", "conv", "convbad", "cond", "nest"]) + [("len", "c", "use"), ("len", "len", "use"), ("c", "len", "bad"), ("len", "use", "bad"), ("len", "bad", "use")] + \
              [("len", "wid", "c", "use"), ("len", "c", "wid", "bad"), ("len", "c", "convbad"), ("len", "wid", "nest"), ("len", "cond", "convbad"), ("len", "conv", "c", "use")]
         tx = sorted(set(tx))
-        ul3 = [("X",), ("Y",), ("X", "Y"), ("Y", "M"), ("X", "OL"), ("T",), ("T2",), ("TB",), ("T2", "M"), ("XK", "Y"), ("Y", "BAD")]
+        ul3 = [("X",), ("Y",), ("X", "Y"), ("Y", "M"), ("X", "OL"), ("T",), ("T2",), ("TB",), ("T2", "M"), ("XK", "Y"), ("Y", "BAD"), ("X", "INT")]
         tx3 = [("len", "use"), ("len", "c", "use"), ("len", "bad"), ("c", "len", "use"), ("len", "convbad"), ("len", "nest")]
     else:
-        ul = unit_lists(3, ["X", "Y", "M", "OL", "T", "T2", "TB", "BAD"])
+        ul = unit_lists(3, ["X", "Y", "M", "OL", "T", "T2", "TB", "BAD"]) + unit_lists(2, ["X", "T2", "INT"])
         tx = sorted(set(dip_texts(3, ["len", "c", "use", "bad", "conv", "convbad", "cond", "nest"]) + dip_texts(4, ["len", "wid", "c", "use", "bad"])))
         ul3 = unit_lists(2, ["X", "Y", "M", "OL", "T", "T2", "TB", "BAD", "XK"])
         tx3 = dip_texts(3, ["len", "c", "use", "convbad", "nest"])
